@@ -114,7 +114,7 @@ func RunProperty(r *ev.Run, prefix string) {
 	// loop conformance on the two deterministic-sampler scenarios
 	nloop := 0
 	for _, s := range scs {
-		if d, ok := map[string]int{"det-w1": ev.Pick(r, 4, 5), "det-w2": ev.Pick(r, 3, 4)}[s.Name]; ok {
+		if d, ok := map[string]int{"det-w1": ev.Pick(r, 3, 5), "det-w2": ev.Pick(r, 2, 4)}[s.Name]; ok {
 			t := time.Now()
 			n := s.LoopConformance(r, prefix, d)
 			nloop += n
